@@ -18,9 +18,11 @@ def norm(v):
         return ("dict",) + tuple(sorted(((norm(k), norm(x)) for k, x in v.items()), key=repr))
     if isinstance(v, bool) or v is None:
         return v
-    for t in (int, float, str):
+    for t, conv in ((int, int.__int__), (float, float.__float__), (str, str.__str__)):
         if isinstance(v, t):
-            return v if type(v) is t else t(v)       # subclasses (a caller's str / int subclass) by value
+            # subclasses (a caller's str / int subclass) by value - by the base type's own
+            # conversion, whatever __str__ / __int__ the subclass defines
+            return v if type(v) is t else conv(v)
     return ("obj", type(v).__name__, repr(v))
 
 
